@@ -55,7 +55,7 @@ class Unit:
     def __init__(s, name, wrap, harness, externs=(), ll2c_args=(), cxxflags=(), extra_c=(), real_link=(), san=True, tv=True, extra_repo_cc=()):
         s.name = name; s.wrap = wrap; s.harness = harness; s.externs = list(externs); s.ll2c_args = list(ll2c_args)
         s.cxxflags = list(cxxflags); s.extra_c = list(extra_c); s.real_link = list(real_link); s.san = san; s.tv = tv
-        s.extra_repo_cc = list(extra_repo_cc)
+        s.extra_repo_cc = list(extra_repo_cc); s.stub_undefined = False
 
 class Harness:
     def __init__(s, name, unit, unwind=4, unwindset=(), backend='sat', timeout=120, mem_gb=8, defines=(), bounds='', claims='',
@@ -164,7 +164,16 @@ class Check:
                 rc, out, err, dt = run(['gcc', '-O1', '-g', '-w', '-DVF_NATIVE', '-DVF_REAL', '-fno-strict-aliasing'] + inc + ['-c', src, '-o', o], timeout=300)
                 if rc != 0: s.log('real harness build failed:', err[-1500:]); return None
                 cobjs.append(o)
-            rc, out, err, dt = run(['g++'] + san + objs + cobjs + u.real_link + ['-lm', '-o', exe], timeout=300)
+            rc, out, err, dt = run(['g++', '-Wl,--no-demangle'] + san + objs + cobjs + u.real_link + ['-lm', '-o', exe], timeout=300)
+            if rc != 0 and getattr(u, 'stub_undefined', False):
+                # symbols of the never-called construction path (BasicSolver ctor etc.): define them as traps
+                syms = sorted(set(re.findall(r"undefined reference to `([^']+)'", err)))
+                with open(os.path.join(d, 'undef_stubs.s'), 'w') as f:
+                    f.write('.text\n')
+                    for sy in syms: f.write('.globl %s\n.type %s,@function\n%s:\n  ud2\n' % (sy, sy, sy))
+                    f.write('.section .note.GNU-stack,"",@progbits\n')
+                info['stubbed_undefined'] = syms
+                rc, out, err, dt = run(['g++', '-Wl,--no-demangle'] + san + objs + cobjs + [os.path.join(d, 'undef_stubs.s')] + u.real_link + ['-lm', '-o', exe], timeout=300)
             if rc != 0: s.log('real link failed:', err[-1500:]); return None
         return exe
 
